@@ -94,7 +94,9 @@ def rule_F2(ctx):
                 continue
             # find the assignment that receives the result
             st = cs.stmt
-            if isinstance(st, ast.Assign) and st.value is cs.node:
+            if isinstance(st, ast.Assign) and any(cs.node is y for y in ast.walk(st.value)) and not any(
+                    isinstance(y, ast.Call) and any(cs.node is z for z in ast.walk(y)) and y is not cs.node and
+                    isinstance(y.func, ast.Name) and y.func.id in ('list', 'tuple', 'dict', 'sorted', 'len', 'int', 'str') for y in ast.walk(st.value)):
                 for t in st.targets:
                     for e in ([t] if isinstance(t, ast.Name) else getattr(t, 'elts', [])):
                         if isinstance(e, ast.Name):
@@ -110,7 +112,8 @@ def rule_F2(ctx):
             elif isinstance(x, ast.AugAssign) and isinstance(x.target, ast.Name) and x.target.id in names:
                 # rebinding a str/int is harmless; lists/BitStores would be mutated in place
                 t = fa.expr_type.get(id(x.value), frozenset())
-                bad = (x.target.id, x)
+                if not (t and t <= {'str', 'int', 'float', 'bool', 'bytes'}):
+                    bad = (x.target.id, x)
             elif isinstance(x, (ast.Subscript,)) and isinstance(x.ctx, (ast.Store, ast.Del)) and isinstance(x.value, ast.Name) \
                     and x.value.id in names:
                 bad = (x.value.id, x)
